@@ -76,7 +76,8 @@ def run_real(ctx):
             seen[scen][1] += 1
             _excuse(ctx, "c09_" + scen if scen != "baseline" else "c09_stall_without_cause",
                     "real controllers, scenario %s: stores quiet, enabled=%s nonfinal=%s connected=%s after one pass of direct reconciles: %s spin=%s reads/s"
-                    % (scen, kv.get("enabled"), kv.get("nonfinal"), kv.get("connected"), kv.get("afterprod"), kv.get("spin")),
+                    % (scen, kv.get("enabled"), kv.get("nonfinal"), kv.get("connected"), kv.get("afterprod"), kv.get("spin"))
+                    + " state before the direct reconciles: " + "\t".join(f[9:])[:700],
                     {"line": ln[:3000], "how": "harness/cmd/c09 -seed %s -only %s" % (ctx.seed, scen)})
     if "baseline" not in seen:
         ctx.violation("c09 harness produced no baseline line", {"stdout": so[-2000:]}, no_input=True)
